@@ -201,6 +201,9 @@ func VH_FieldTotal() {
 	n := vLen("n", vParam("maxlen", 3))
 	t := vTypes[vParam("type", 0)]
 	v := vASCII("v", n)
+	// a concrete beginning (parameter "stem") in front of the symbolic part: values with more structure
+	// than a few bytes can have (an SELinux context with an MLS range, a long key list, a path)
+	v = []string{"", "staff_u:staff_r:staff_t:s0:c0-s0", "a:b:c:d:e:f:g:", "6B31016B32016B33", "/a/b/c/d/e/f/g/h/", "1,2,3,4,5,6,7,8,"}[vParam("stem", 0)] + v
 	// concrete non-ASCII bytes after the symbolic ASCII part (the regexp summary needs symbolic bytes
 	// to be ASCII, concrete ones may be anything)
 	v += []string{"", "\xc3\xa9", "\xff", "\x80\xfe", "\xe2\x82\xac"}[vParam("nonascii", 0)]
